@@ -7,6 +7,7 @@
 //!
 //! Exit status: 0 = ran to completion (disagreements are in the report), 2 = tool error.
 
+mod api;
 mod exec;
 mod record;
 mod util;
@@ -33,6 +34,7 @@ fn main() {
         "exec-one" => cmd_exec_one(&args[2..]),
         "verdicts" => cmd_verdicts(&args[2..]),
         "record-interp" => cmd_record_interp(&args[2..]),
+        "record-api" => cmd_record_api(&args[2..]),
         other => {
             eprintln!("unknown command {other}");
             2
@@ -324,5 +326,44 @@ fn cmd_record_interp(args: &[String]) -> i32 {
                          "events": events, "outcomes": outcomes, "crashes": crashes, "index": index, "chunks": chunks});
     std::fs::write(format!("{prefix}.summary.json"), serde_json::to_string(&summary).unwrap()).unwrap();
     println!("record-interp: {} generated, {} accepted, {} events, outcomes {:?}, {} crashes", cases.len(), accepted, events, outcomes, crashes.len());
+    0
+}
+
+/// rv record-api --seed S --n N --len L --kind K --out F: N random API histories of length L on VM
+/// kind K, each in its own child process; events go to F (NDJSON) for TraceApi.tla.
+fn cmd_record_api(args: &[String]) -> i32 {
+    let seed: u64 = arg(args, "--seed").map(|s| s.parse().unwrap()).unwrap_or(1);
+    let n: u64 = arg(args, "--n").map(|s| s.parse().unwrap()).unwrap_or(100);
+    let len: u64 = arg(args, "--len").map(|s| s.parse().unwrap()).unwrap_or(30);
+    let kind = arg(args, "--kind").expect("--kind");
+    let out = arg(args, "--out").expect("--out");
+    exec::calibrate_helpers();
+    let jobs: Vec<Value> = (0..n).map(|k| json!({"kind": kind, "seed": seed.wrapping_mul(1000003).wrapping_add(k), "len": len})).collect();
+    let results = run_isolated(&jobs, 30000, api::run_history);
+    use std::io::Write;
+    let mut f = std::fs::File::create(out).unwrap();
+    let mut events = 0usize;
+    let mut crashed: Vec<Value> = Vec::new();
+    let mut index: Vec<Value> = Vec::new();
+    let mut line = 0usize;
+    for (job, r) in jobs.iter().zip(results.iter()) {
+        match r {
+            ChildResult::Done(v) => {
+                let evs = arr(&v["events"]);
+                index.push(json!({"first_line": line + 1, "events": evs.len(), "job": job}));
+                for e in &evs {
+                    writeln!(f, "{}", serde_json::to_string(e).unwrap()).unwrap();
+                }
+                line += evs.len();
+                events += evs.len();
+            }
+            ChildResult::Signal(s) => crashed.push(json!({"job": job, "how": format!("signal {s}")})),
+            ChildResult::Timeout => crashed.push(json!({"job": job, "how": "timeout"})),
+            ChildResult::Exit(c) => crashed.push(json!({"job": job, "how": format!("exit {c}")})),
+        }
+    }
+    let summary = json!({"histories": jobs.len(), "events": events, "crashed": crashed, "index": index});
+    std::fs::write(format!("{out}.summary.json"), serde_json::to_string(&summary).unwrap()).unwrap();
+    println!("record-api[{kind}]: {} histories, {} events, {} crashed", jobs.len(), events, crashed.len());
     0
 }
